@@ -336,7 +336,7 @@ func genPcCall(rng *rand.Rand, g *GenesisSpec, chain string) Op {
 		case 5:
 			op.Mut = "withdrawRewards"
 		case 6:
-			op.Mut, op.A = "transfer", []string{other, "10"}
+			op.Mut, op.A = "transfer", []string{pick(rng, other, other, "caller"), pick(rng, "10", "100000", "1")}
 		case 7:
 			op.Mut, op.A = "balanceOf", []string{pick(rng, "caller", other)}
 		case 8:
